@@ -17,7 +17,10 @@ RULE = ("Histories as generated operation lists over a pool of shared objects (2
         "(data, shape, strides, flags); (ii) every result equals the same call on freshly constructed equal objects built "
         "from the current parameter values (1e-10, exact for pure functions); (iii) methods of one object mutually consistent "
         "with its current attributes; (iv) a Bath built earlier keeps answering with the values at its construction; (v) the "
-        "same numbers in another memory layout give the same result and no exception. Non-trivial: the history re-uses an "
+        "same numbers in another memory layout give the same result and no exception. (fresh-process) a generated sequence of "
+        "2-4 computations (TEMPO, PT-TEMPO, mean-field, Gibbs, PT-TEBD, gradient; d=2..3; unique on/off; different coupling "
+        "operators) is run in one process and the last one is repeated in a fresh interpreter: equal within the truncation "
+        "tolerance (catches process-wide caches). Non-trivial: the history re-uses an "
         "object after a computation or after an attribute change; distinct = distinct canonical JSON.")
 TECHNIQUE = "model-based testing of histories: Hypothesis-generated operation sequences on shared objects against a model of 'freshly constructed equal objects', plus array-layout metamorphic relation and bitwise caller-array invariant"
 LEVEL_TEXT = ("Generated histories of constructions, attribute updates, evaluations and computations on shared objects are replayed "
@@ -366,5 +369,121 @@ def run_case(case):
     return out
 
 
+# ---------------------------------------------------------------- process-wide state: history vs a fresh interpreter
+
+COMPUTE_KINDS = ["tempo", "tempo-unique", "pt", "pt-unique", "mean-field-unique", "gibbs", "pt-tebd", "gradient"]
+
+
+@st.composite
+def s_fresh(draw, tier):
+    n = draw(st.integers(2, 4))
+    steps = []
+    for _ in range(n):
+        d = draw(st.sampled_from([2, 3, 3]))
+        steps.append({"kind": draw(st.sampled_from(COMPUTE_KINDS)), "d": d,
+                      "o": draw(st.lists(st.sampled_from([-1.0, 0.0, 0.0, 1.0, 2.0]), min_size=d, max_size=d)),
+                      "H": draw(gens.herm_spec(d, 1, 2)), "rho0": draw(gens.dm_spec(d)),
+                      "alpha": draw(st.sampled_from([0.1, 0.3])), "T": draw(st.sampled_from([0.0, 0.5])),
+                      "dt": draw(st.sampled_from([0.1, 0.2]))})
+    return {"steps": steps}
+
+
+def fresh_compute(step):
+    """one self-contained computation from plain numbers (also imported by the child interpreter)"""
+    import oqupy
+    from oqupy import operators
+    d = step["d"]
+    o = np.array(step["o"], dtype=float)
+    if o.max() == o.min():
+        o = o.copy()
+        o[0] += 1.0
+    O = np.diag(o).astype(complex)
+    H = gens.herm(step["H"])
+    rho0 = gens.build_dm(step["rho0"])
+    corr = oqupy.PowerLawSD(step["alpha"], 1.0, 3.0, temperature=step["T"])
+    bath = oqupy.Bath(O, corr)
+    dt = step["dt"]
+    par = oqupy.TempoParameters(dt=dt, epsrel=1e-8, dkmax=2)
+    end = 3.5 * dt
+    kw = dict(progress_type="silent")
+    k = step["kind"]
+    system = oqupy.System(H)
+    if k in ("tempo", "tempo-unique"):
+        return np.array(oqupy.Tempo(system, bath, par, rho0, 0.0, unique=k.endswith("unique")).compute(end, **kw).states)
+    if k in ("pt", "pt-unique"):
+        pt = oqupy.pt_tempo_compute(bath, 0.0, end, par, unique=k.endswith("unique"), **kw)
+        return np.array(oqupy.compute_dynamics(system, rho0, process_tensor=pt, **kw).states)
+    if k == "mean-field-unique":
+        B = np.diag(np.ones(d - 1), 1).astype(complex)
+        sysf = oqupy.TimeDependentSystemWithField(lambda t, a: H + 0.3 * (a * B + np.conj(a) * B.conj().T))
+        mfs = oqupy.MeanFieldSystem([sysf], lambda t, st_, a: (-0.1 + 0.5j) * a + 0.3 * t + 0.5 * np.trace(st_[0] @ B))
+        dm = oqupy.MeanFieldTempo(mfs, [bath], par, [rho0], 0.2 + 0.1j, unique=True).compute(end, **kw)
+        return np.concatenate([np.array(dm.system_dynamics[0].states).reshape(-1), np.array(dm.fields)])
+    if k == "gibbs":
+        if step["T"] <= 0:
+            return np.zeros(1)
+        return np.array(oqupy.gibbs_tempo_compute(system, bath, oqupy.GibbsParameters(4, 1e-8), **kw))
+    pt = oqupy.pt_tempo_compute(bath, 0.0, end, par, **kw)
+    if k == "gradient":
+        A = np.diag(np.arange(d, dtype=float)).astype(complex)
+        psys = oqupy.ParameterizedSystem(lambda u: H + 0.5 * u * A)
+        return np.asarray(oqupy.state_gradient(psys, rho0, rho0.T.copy(), [pt], np.linspace(0.1, 0.8, 6).reshape(6, 1), **kw)["gradient"])
+    chain = oqupy.SystemChain([d, 2])
+    chain.add_site_hamiltonian(0, H)
+    chain.add_nn_hamiltonian(0, O, operators.sigma("x"))
+    r = oqupy.PtTebd(oqupy.AugmentedMPS([rho0, operators.spin_dm("up")]), chain, [pt, None],
+                     oqupy.PtTebdParameters(dt, 1e-9, 2), dynamics_sites=[0, 1]).compute(3, **kw)
+    return np.concatenate([np.array(r["dynamics"][0].states).reshape(-1), np.array(r["dynamics"][1].states).reshape(-1)])
+
+
+CHILD = r"""
+import sys, json
+sys.path.insert(0, sys.argv[1]); sys.path.insert(0, sys.argv[2])
+import warnings; warnings.simplefilter("ignore")
+import numpy as np
+from checks.c20 import fresh_compute
+step = json.load(open(sys.argv[3]))
+r = np.asarray(fresh_compute(step)).reshape(-1)
+json.dump([[float(z.real), float(z.imag)] for z in r.astype(complex)], open(sys.argv[4], "w"))
+"""
+
+
+def run_fresh(case):
+    """the last computation of an in-process history must equal the same computation in a fresh interpreter"""
+    import json
+    import os
+    import shutil
+    import subprocess
+    import sys
+    import tempfile
+    from vlib.runner import REPO_DIR, VERIF_DIR, HarnessError
+    out = Outcome()
+    steps = case["steps"]
+    out.nontrivial = len(steps) >= 2
+    for s_ in steps:
+        out.label("kind=" + s_["kind"], f"d={s_['d']}")
+    res = None
+    for s_ in steps:
+        res = np.asarray(fresh_compute(s_)).reshape(-1)
+    tmp = tempfile.mkdtemp(prefix="verif_c20_")
+    try:
+        jf, of = os.path.join(tmp, "step.json"), os.path.join(tmp, "out.json")
+        json.dump(steps[-1], open(jf, "w"))
+        r = subprocess.run([sys.executable, "-c", CHILD, REPO_DIR, VERIF_DIR, jf, of], capture_output=True, text=True,
+                           env=dict(os.environ, PYTHONHASHSEED="0", OMP_NUM_THREADS="1"), timeout=900)
+        if r.returncode != 0:
+            raise HarnessError("fresh interpreter failed: " + r.stderr[-600:])
+        want = np.array([complex(a, b) for a, b in json.load(open(of))])
+    finally:
+        shutil.rmtree(tmp, ignore_errors=True)
+    if res.shape != want.shape or not np.abs(res - want).max() <= RUN_TO_RUN_TOL * 10 * max(1.0, float(np.abs(want).max())):
+        dev = float(np.abs(res - want).max()) if res.shape == want.shape else float("nan")
+        out.fail("depends-on-earlier-computations:" + steps[-1]["kind"],
+                 f"after {[s_['kind'] for s_ in steps[:-1]]} the {steps[-1]['kind']} computation deviates by {dev:.3e} from the same "
+                 "computation in a fresh interpreter")
+    return out
+
+
 def subs(tier):
-    return [Sub("history", run_case, strategy=s_case, budget={"quick": 960, "thorough": 8000})]
+    return [Sub("history", run_case, strategy=s_case, budget={"quick": 960, "thorough": 8000}),
+            Sub("fresh-process", run_fresh, strategy=s_fresh, budget={"quick": 96, "thorough": 800})]
